@@ -22,7 +22,7 @@ func (t vpTermRef) Field() string { return t.field }
 func (t vpTermRef) Term() []byte  { return []byte(t.term) }
 
 var vpReadOpNames = []string{"Dictionary+Iterator", "PostingsList+Iterator", "VisitStoredFields", "DocumentValueReader",
-	"DocsMatchingTerms", "CollectionStats+Fields+Count", "WriteTo", "merge-input", "recycled list+iterator (absent term, then present term)", "recycled iterator (term without locations, then term with locations)"}
+	"DocsMatchingTerms", "CollectionStats+Fields+Count", "WriteTo", "merge-input", "recycled list+iterator (absent term, then present term)", "recycled iterator (term without locations, then term with locations)", "Close() of an empty list's iterator, then fresh iterators"}
 
 // vpReadOp performs read operation k on seg and returns a digest of what it observed.
 func vpReadOp(k int, seg *Segment) []byte {
@@ -171,6 +171,34 @@ func vpReadOp(k int, seg *Segment) []byte {
 				dig = append(dig, byte(l.Pos()), byte(l.Start()), byte(l.End()))
 			}
 		}
+	case 10:
+		// a reader closes the iterator it got for an absent term, then opens fresh
+		// iterators (no prealloc) on a present and on an absent term
+		d, err := seg.Dictionary("a")
+		vpMust(err, "Dictionary")
+		pl, err := d.PostingsList([]byte("absent"), nil, nil)
+		vpMust(err, "PostingsList")
+		it, err := pl.Iterator(true, true, true, nil)
+		vpMust(err, "Iterator")
+		vpMust(it.Close(), "Close")
+		plx, err := d.PostingsList([]byte("x"), nil, nil)
+		vpMust(err, "PostingsList")
+		itx, err := plx.Iterator(true, true, true, nil)
+		vpMust(err, "Iterator")
+		p, err := itx.Next()
+		vpMust(err, "Next")
+		if p != nil {
+			dig = append(dig, byte(p.Number()), byte(p.Frequency()))
+		}
+		pl2, err := d.PostingsList([]byte("absent"), nil, nil)
+		vpMust(err, "PostingsList")
+		it2, err := pl2.Iterator(true, true, true, nil)
+		vpMust(err, "Iterator")
+		p2, err := it2.Next()
+		vpMust(err, "Next")
+		vpAssert(p2 == nil && pl2.Count() == 0, "an absent term has no postings (after iterators were closed and reopened)")
+		vpMust(itx.Close(), "Close")
+		vpMust(it2.Close(), "Close")
 	}
 	return dig
 }
@@ -199,6 +227,7 @@ func vpH_C09_frame() {
 	}
 	k := vpChoice("op", len(vpReadOpNames))
 	vpNote("op:" + vpReadOpNames[k])
+	vpPoolReuse(true) // objects put into a sync.Pool come back on the next Get
 	if vpSymbolic() {
 		// both the first (cold) and the repeated execution are tracked
 		vpWriteSetBegin([]interface{}{seg})
